@@ -390,7 +390,7 @@ def check(run):
                 "still pending (also 200 s after the stop). Non-trivial = at least one timer fired.")
     run.assumptions = ["asyncio runs timer handles in (when, creation) order - validated by the acceptor on "
                        "every case, not proved"]
-    cases = [gen_case(run.rng) for _ in range(500 if run.tier == 'quick' else 6000)]
+    cases = [gen_case(run.rng) for _ in range(500 if run.tier == 'quick' else 24000)]
     for c in cases:
         run.count('kind_' + c['kind'])
     res = common.standard_flow(run, spec, cases)
